@@ -94,12 +94,13 @@ pub fn comments_in_between_keywords()
     eol_ws_zero_or_more().and_keep_right(comment_as_string_followed_by_separator().zero_or_more())
 }
 
-/// Parses a comment as a string, demanding that it is followed
-/// by a separator (EOL), as this is supposed to be a
-/// comment in-between keywords, so it can't be terminated by EOF.
+/// Parses a comment as a string, followed by a separator (EOL).
+/// This is supposed to be a comment in-between keywords. If it is terminated
+/// by EOF instead, the enclosing statement is incomplete and gets reported
+/// exactly as it would be without the comment.
 fn comment_as_string_followed_by_separator()
 -> impl Parser<StringView, Output = Positioned<String>, Error = ParserError> {
     comment_as_string_p()
         .with_pos()
-        .and_keep_left(comment_separator().or_expected("EOL"))
+        .and_keep_left(comment_separator().to_option())
 }
